@@ -69,7 +69,7 @@ def eval_prog(ld, st, groups=None):
         return
     if why == 'declared':
         st.seen('nontrivial', (pr.outer, pr.calls[0].callee, shape_of(sig)))
-    if groups is not None and not pr.taint and pr.context not in grammar.SHADOW_CONTEXTS:
+    if groups is not None and not pr.taint and pr.context not in grammar.SHADOW_CONTEXTS + ('ifelse_unres',):
         # metamorphic groups: same shapes and argument shapes, any context / route
         key = (pr.outer, tuple((c.callee, c.npos, c.names, c.va, c.vk) for c in pr.calls))
         groups.setdefault(key, []).append((got_p if pr.route != 'method' else got_p, pr.context, pr.route, ld))
